@@ -107,6 +107,23 @@ for _init, _read, _write, _want in _SLOT:
     EXPECT.append({"src": "%s\ndefer func() { %s }()\n%s" % (_init, _write, _read), "field": "result", "want": _want,
                    "why": "the same at top level: the value handed to the host is the value of the last statement, whatever a deferred call does afterwards"})
 
+# an error raised inside a script function that Go calls back reaches the nearest enclosing try of the script, whatever the
+# func type of the callback (with or without results); after the failing point nothing executes but deferred calls
+for _call, _tr_in in (("hcall0(func() { probe(\"cb\"); %s; probe(\"not here\") })", "(s:696e30);(s:6362)"),
+                      ("hcall1(func(v) { probe(\"cb\"); %s; probe(\"not here\") }, 7)", "(s:696e31);(s:6362)"),
+                      ("hcallr(func() { probe(\"cb\"); %s; return 1 })", "(s:696e72);(s:6362)"),
+                      ("hcall2(func() { probe(\"cb\"); %s }, func() { probe(\"second callback\") })", "(s:696e32);(s:6362)")):
+    for _raise in ("throw \"boom\"", "x = 1 % 0", "undefined_name"):
+        _c = _call % _raise
+        EXPECT.append({"src": "try { %s; probe(\"after the call\") } catch e { probe(\"caught\") } finally { probe(\"finally\") }\nnil" % _c, "field": "trace",
+                       "want": _tr_in + ";(s:636175676874);(s:66696e616c6c79)", "why": "an error inside a callback reaches the nearest enclosing try; nothing after the failing point runs"})
+        EXPECT.append({"src": "func w() { defer probe(\"d\"); %s; probe(\"after the call\") }\nr = \"none\"; try { w() } catch e { r = \"caught\" }\nr" % _c, "field": "result",
+                       "want": "s:636175676874", "why": "an error inside a callback leaves the calling function and reaches the caller's try"})
+        EXPECT.append({"src": "func w() { defer probe(\"d\"); %s; probe(\"after the call\") }\ntry { w() } catch e { }\nnil" % _c, "field": "trace",
+                       "want": _tr_in + ";(s:64)", "why": "after a failing callback only the deferred calls of the function being left run"})
+        EXPECT.append({"src": "%s\nprobe(\"after the call\")" % _c, "field": "trace", "want": _tr_in, "why": "an uncaught error inside a callback ends the script"})
+        EXPECT.append({"src": "%s\nprobe(\"after the call\")" % _c, "field": "status", "want": "err", "why": "an uncaught error inside a callback is returned to the host"})
+
 
 def run(tier, seed, replay=None):
     return interpcheck.run_interp_check(
